@@ -74,6 +74,7 @@ type Exec struct {
 	unsubAt                 map[*MSession]map[uint32]bool // types that lost a subscriber
 	actorBefore, actorAfter *MSession
 	stepTags                string
+	refusedStep             int // stepIdx+1 of the last step whose request was refused as the reference expects
 }
 
 func NewExec(d Driver, cfg Config) *Exec {
@@ -669,6 +670,7 @@ func (e *Exec) expectError(mc *MConn, req uint32, tags, why string, codes ...hag
 	got := rx.M.(*hagallpb.ErrorResponse).Code
 	for _, c := range codes {
 		if c == got {
+			e.refusedStep = e.stepIdx + 1
 			return true
 		}
 	}
@@ -1163,10 +1165,19 @@ func (e *Exec) applyBroadcast(mc *MConn, rx Rx) {
 }
 
 func (e *Exec) stepTagSuffix() string {
-	if e.stepTags == "" {
+	t := e.stepTags
+	if e.refusedStep == e.stepIdx+1 && !strings.Contains(","+t+",", ",C04,") {
+		// "a refused request changes nothing" is a clause of C04: whatever differs from the
+		// reference right after a request that was refused as expected bears on C04 as well
+		if t != "" {
+			t += ","
+		}
+		t += "C04"
+	}
+	if t == "" {
 		return ""
 	}
-	return "," + e.stepTags
+	return "," + t
 }
 
 func (e *Exec) checkViews() {
